@@ -38,6 +38,9 @@ type Config struct {
 
 	Plan []Action `json:"plan"`
 
+	ApiOps               []ApiOp `json:"api_ops,omitempty"`
+	ApiConfigProvisioned bool    `json:"api_config_provisioned,omitempty"`
+
 	Scenario      string `json:"scenario,omitempty"`        // control families: the one root cause / history class of this run
 	FaultOnlyKeys string `json:"fault_only_keys,omitempty"` // db.err is injected only on keys with this prefix
 	Hostile    bool `json:"hostile,omitempty"`     // some plugin answers with hostile shapes
